@@ -374,35 +374,41 @@ func checkC13(r *Result) []Violation {
 	}
 	// an invalid CONNECT never yields a session: a later clean-start-0 connection must not find one
 	// (only ids that never had a valid session are judged)
-	hadValid := map[string]bool{}
-	hadInvalid := map[string]bool{}
+	// A connection with the same id that was opened before this CONNACK was written and that was (ever) admitted
+	// explains a session (two concurrent CONNECTs with one id may be served in either order); only when every
+	// earlier connection with the id was refused can the session have come from an invalid CONNECT.
+	admittedConn := func(c *Conn) bool {
+		for _, pr := range c.Pkts {
+			if pr.P.Type == refcodec.CONNACK && pr.P.ReasonCode == 0 {
+				return true
+			}
+		}
+		return false
+	}
 	for _, c := range r.Ex.Conns {
 		op := r.Plan.Ops[c.ConnectOp]
 		cp := op.Pkt
-		if cp == nil || cp.Type != refcodec.CONNECT {
+		if cp == nil || cp.Type != refcodec.CONNECT || !(validConnect(cp) && op.Note != "invalid" && authAllows(r, cp)) {
 			continue
 		}
-		valid := validConnect(cp) && op.Note != "invalid" && authAllows(r, cp)
-		if valid {
-			for _, pr := range c.Pkts {
-				if pr.P.Type == refcodec.CONNACK && pr.P.ReasonCode == 0 {
-					if pr.P.SessionPresent && !hadValid[cp.ClientID] && hadInvalid[cp.ClientID] {
-						out = append(out, viol("C13", "session-from-invalid-connect", fmt.Sprintf("conn %d: session present for %q although only refused connections used that id before", c.Idx, cp.ClientID), pr.Seq))
-					}
-					hadValid[cp.ClientID] = true
+		for _, pr := range c.Pkts {
+			if pr.P.Type != refcodec.CONNACK || pr.P.ReasonCode != 0 || !pr.P.SessionPresent {
+				continue
+			}
+			explained, refusedBefore := false, false
+			for _, c2 := range r.Ex.Conns {
+				op2 := r.Plan.Ops[c2.ConnectOp]
+				if c2 == c || op2.Pkt == nil || op2.Pkt.Type != refcodec.CONNECT || op2.Pkt.ClientID != cp.ClientID || c2.openSeq > pr.Seq {
+					continue
+				}
+				if admittedConn(c2) {
+					explained = true
+				} else {
+					refusedBefore = true
 				}
 			}
-		} else {
-			admitted := false
-			for _, pr := range c.Pkts {
-				if pr.P.Type == refcodec.CONNACK && pr.P.ReasonCode == 0 {
-					admitted = true // already reported as invalid-connect-admitted / unauthenticated-admitted
-				}
-			}
-			if admitted {
-				hadValid[cp.ClientID] = true
-			} else {
-				hadInvalid[cp.ClientID] = true
+			if !explained && refusedBefore {
+				out = append(out, viol("C13", "session-from-invalid-connect", fmt.Sprintf("conn %d: session present for %q although only refused connections used that id before", c.Idx, cp.ClientID), pr.Seq))
 			}
 		}
 	}
